@@ -146,10 +146,16 @@ def laws():
                 residual = alt
         return Case(residual + extra, assume=assume)
 
-    @law("solve_for_vector/refuses-non-member-vector-and-non-vector-expression", [("nonmember",), ("nonvector",), ("nonvector-eq",)],
-         ["solvers.solve_for_vector"])
+    @law("solve_for_vector/refuses-non-member-vector-and-non-vector-expression", [("nonmember",), ("nonvector",), ("nonvector-eq",), ("vector-in-denominator",), ("product-of-two-vectors",), ("scalar-plus-vector",)],
+         ["solvers.solve_for_vector", "vectors.is_vector_expr"])
     def _(s, g):
         sy, env, k = setup(g)
+        if s[0] == "vector-in-denominator":
+            return Case(raises=(TypeError, ValueError), thunk=lambda: S.solve_for_vector(k[0] * sy[0] + sy[1] / sy[2], sy[0]))
+        if s[0] == "product-of-two-vectors":
+            return Case(raises=(TypeError, ValueError), thunk=lambda: S.solve_for_vector(sp.Mul(sy[0], sy[1], evaluate=False) + sy[2], sy[2]))
+        if s[0] == "scalar-plus-vector":
+            return Case(raises=(TypeError, ValueError), thunk=lambda: S.solve_for_vector(k[0] + sy[0], sy[0]))
         if s[0] == "nonmember":
             return Case(raises=ValueError, thunk=lambda: S.solve_for_vector(k[0] * sy[1] + sy[2], sy[0]))
         if s[0] == "nonvector":
